@@ -66,7 +66,13 @@ def _cases(ctx, nl):
     hist = {'lenses': 0, 'mirrors': 0, 'finite_object': 0, 'stop_first': 0, 'stop_last': 0, 'aperture': {}, 'field': {}}
     corp = [c for c in lensgen.corpus() if c['name'] in ('mangin', 'image-in-glass', 'tir-planoconvex')]
     for li in range(nl + len(corp)):
-        spec = dict(corp[li]) if li < len(corp) else lensgen.gen_spec(rng, allow=['plane', 'standard', 'conic', 'even_asphere'], decenter=False)
+        spec = dict(corp[li]) if li < len(corp) else lensgen.gen_spec(rng, allow=['plane', 'standard', 'conic', 'even_asphere'], decenter=False,
+                                                                                  finite_object=(True if li % 4 == 3 else None))
+        if li >= len(corp) and li % 4 == 3 and not math.isinf(spec['object_thickness']):
+            lensgen.immerse(spec, rng)       # immersion objective / eye model: object or image space not in air
+            hist['immersed'] = hist.get('immersed', 0) + 1
+            if rng.random() < 0.5:
+                spec['aperture'] = ['objectNA', rng.uniform(0.02, 0.3)]
         edits = []
         try:
             o = lensgen.build(spec)
